@@ -3,6 +3,7 @@ package main
 import (
 	"fmt"
 	"go/ast"
+	"go/token"
 	"go/types"
 	"strings"
 
@@ -630,5 +631,175 @@ func ruleHasInstanceOrder(c *Ctx, r *R) {
 	}
 	if n == 0 {
 		r.undecided("unresolved:hasInstance", "-", "UNRESOLVED: no method of *object (Value) bool reads the property `prototype`")
+	}
+}
+
+func init() {
+	register(&Rule{ID: "REC-counter", Props: []string{"C11", "C02"}, Min: 1,
+		Doc: "P (a nesting counter counts nesting): a function that calls itself and increments an integer field through a *pointer* parameter (a depth counter kept in a shared context) decrements the same field again - in a deferred function or before its returns; a counter in a context passed *by value* needs no decrement (each level has its own copy) and is not examined. Otherwise the field counts the values visited, not the depth: with a stack depth limit set, JSON.parse of a flat array of 200 numbers and a reviver raises a RangeError although the nesting depth is 1. (Expected count on the pinned tree is zero: its walkers pass their context by value; the positive example is the own mutant json-revive-context-pointer.)",
+		Run: ruleRecCounter})
+}
+
+func ruleRecCounter(c *Ctx, r *R) {
+	n := 0
+	examined := 0
+	for _, fn := range c.AllSrcFuncs("") {
+		if fn.Parent() != nil {
+			continue
+		}
+		recursive := false
+		for _, b := range fn.Blocks {
+			for _, ins := range b.Instrs {
+				if call, ok := ins.(*ssa.Call); ok && call.Call.StaticCallee() == fn {
+					recursive = true
+				}
+			}
+		}
+		if !recursive {
+			continue
+		}
+		examined++
+		family := append([]*ssa.Function{fn}, fn.AnonFuncs...)
+		type fieldKey struct {
+			p     *ssa.Parameter
+			field int
+		}
+		incs := map[fieldKey]ssa.Instruction{}
+		decs := map[fieldKey]bool{}
+		for _, f := range family {
+			for _, b := range f.Blocks {
+				for _, ins := range b.Instrs {
+					st, ok := ins.(*ssa.Store)
+					if !ok {
+						continue
+					}
+					fa, ok := st.Addr.(*ssa.FieldAddr)
+					if !ok {
+						continue
+					}
+					var p *ssa.Parameter
+					if q, ok := normCell(fa.X).(*ssa.Parameter); ok {
+						p = q // (a parameter that a closure captures lives in a cell)
+					}
+					switch x := fa.X.(type) {
+					case *ssa.Parameter:
+						p = x
+					case *ssa.FreeVar:
+						// a deferred closure capturing the parameter: find the parameter of the same name in fn
+						for _, q := range fn.Params {
+							if q.Name() == x.Name() {
+								p = q
+							}
+						}
+					case *ssa.UnOp:
+						if fv, ok := x.X.(*ssa.FreeVar); ok {
+							for _, q := range fn.Params {
+								if q.Name() == fv.Name() {
+									p = q
+								}
+							}
+						}
+					}
+					if p == nil {
+						continue
+					}
+					if _, isPtr := p.Type().Underlying().(*types.Pointer); !isPtr {
+						continue
+					}
+					bo, ok := st.Val.(*ssa.BinOp)
+					if !ok {
+						continue
+					}
+					one := false
+					for _, o := range []ssa.Value{bo.X, bo.Y} {
+						if k, ok := constInt(o); ok && k == 1 {
+							one = true
+						}
+					}
+					if !one {
+						continue
+					}
+					key := fieldKey{p, fa.Field}
+					switch bo.Op {
+					case token.ADD:
+						incs[key] = ins
+					case token.SUB:
+						decs[key] = true
+					}
+				}
+			}
+		}
+		for key, ins := range incs {
+			n++
+			r.check(decs[key], fmt.Sprintf("%s:%s#%d", ssaFuncName(fn), key.p.Name(), key.field), c.Pos(instrPos(ins)), "the counter incremented through the shared context is decremented again",
+				fmt.Sprintf("%s calls itself and increments a field of the context it shares with its callers (the pointer parameter %s) without ever decrementing it: the field counts the values visited, not the nesting depth - with a stack depth limit a flat JSON array of a few hundred elements is refused as too deep (pass the context by value, or decrement in a deferred function)", ssaFuncName(fn), key.p.Name()))
+		}
+	}
+	if examined < 8 {
+		r.undecided("census", "-", fmt.Sprintf("only %d self-recursive functions found in package otto (16 on the pinned tree): the census no longer sees the walkers", examined))
+		return
+	}
+	r.ok("census", "-", fmt.Sprintf("%d self-recursive functions of package otto examined, %d counters incremented through a pointer parameter", examined, n))
+}
+
+func init() {
+	register(&Rule{ID: "EARLY-continue-outer", Props: []string{"C04"}, Min: 1,
+		Doc: "P (ES5 12.7: `continue Identifier` is a syntax error unless the label belongs to an enclosing *iteration* statement; the parser collects labelled continue statements while the labelled statement is being parsed and judges those that name its label when it has the statement): a labelled statement must hand the continues that name *another* label on to the enclosing labelled statements - the list it stores back is filtered (rebuilt with append from the entries it did not judge), not simply cut back to its old length. Otherwise `a: { b: for (;;) { continue a } }` is accepted: the entry for `a` is dropped when `b:` is done",
+		Run: ruleEarlyContinueOuter})
+}
+
+func ruleEarlyContinueOuter(c *Ctx, r *R) {
+	n := 0
+	for _, fn := range c.AllSrcFuncs("parser") {
+		for _, b := range fn.Blocks {
+			for _, ins := range b.Instrs {
+				st, ok := ins.(*ssa.Store)
+				if !ok {
+					continue
+				}
+				fa, ok := st.Addr.(*ssa.FieldAddr)
+				if !ok {
+					continue
+				}
+				if nt, f := fieldOfAddr(fa); nt == nil || f == nil || f.Name() != "continues" {
+					continue
+				}
+				// stores that cut the list back: the value derives from a slice expression with an upper bound of the old list
+				cuts, appends := false, false
+				seen := map[ssa.Value]bool{}
+				var walk func(v ssa.Value, d int)
+				walk = func(v ssa.Value, d int) {
+					if d > 8 || seen[v] {
+						return
+					}
+					seen[v] = true
+					switch x := v.(type) {
+					case *ssa.Slice:
+						if x.High != nil {
+							cuts = true
+						}
+					case *ssa.Phi:
+						for _, e := range x.Edges {
+							walk(e, d+1)
+						}
+					case *ssa.Call:
+						if bi, ok := x.Call.Value.(*ssa.Builtin); ok && bi.Name() == "append" {
+							appends = true
+							walk(x.Call.Args[0], d+1)
+						}
+					}
+				}
+				walk(st.Val, 0)
+				if !cuts {
+					continue // the plain registration of a new continue statement
+				}
+				n++
+				r.check(appends, ssaFuncName(fn)+":continues", c.Pos(instrPos(st)), "the pending continues are filtered: the ones that name another label are kept for the enclosing statements",
+					fmt.Sprintf("%s cuts the list of pending labelled continue statements back to its old length when a labelled statement is done, dropping the entries that name an outer label unjudged: `a: { b: for (;;) { continue a } }` is accepted although `a` labels a block (ES5 12.7)", ssaFuncName(fn)))
+			}
+		}
+	}
+	if n == 0 {
+		r.undecided("unresolved:store", "-", "UNRESOLVED: no labelled statement stores a cut-back list of pending continue statements (parser scope field `continues`)")
 	}
 }
